@@ -64,18 +64,20 @@ class YosysStructuralTranslatorL4(
             _subcomp_ifc_port_gen( d, msb, ifc_id+"__"+str(i), id_, n_dim[1:] )
         return ret
 
-    def _subcomp_ifc_conn_gen( d, cpid, _pid, cwid, _wid, idx, n_dim ):
+    def _subcomp_ifc_conn_gen( d, cpid, _pid, cwid, _wid, idx, n_dim, ifc_idx = "" ):
+      # `ifc_idx` accumulates the indices of the interface array in the order
+      # of its dimensions; they precede the index `idx` of the port itself.
       if not n_dim:
         pid = cpid + "__" + _pid
         wid = cwid + "__" + _wid
-        return [ { "direction" : d, "pid" : pid, "wid" : wid, "idx" : idx } ]
+        return [ { "direction" : d, "pid" : pid, "wid" : wid, "idx" : ifc_idx + idx } ]
       else:
         ret = []
         for i in range( n_dim[0] ):
           _cpid = f"{cpid}__{i}"
-          _idx = f"[{i}]{idx}"
+          _ifc_idx = f"{ifc_idx}[{i}]"
           ret += \
-            _subcomp_ifc_conn_gen( d, _cpid, _pid, cwid, _wid, _idx, n_dim[1:] )
+            _subcomp_ifc_conn_gen( d, _cpid, _pid, cwid, _wid, idx, n_dim[1:], _ifc_idx )
         return ret
 
     ifc_n_dim = ifc_array_type["n_dim"]
@@ -167,11 +169,13 @@ class YosysStructuralTranslatorL4(
           ret += _subcomp_port_gen( c_name, c_id+"__"+str(i), n_dim[1:], port_decls )
         return ret
 
-    def _subcomp_conn_gen( d, cpid, _pid, cwid, _wid, idx, n_dim ):
+    def _subcomp_conn_gen( d, cpid, _pid, cwid, _wid, idx, n_dim, c_idx = "" ):
+      # `c_idx` accumulates the indices of the component array in the order
+      # of its dimensions; they precede the index `idx` of the port itself.
       if d.startswith( "input" ):
-        template = "assign {pid} = {wid}{idx};"
+        template = "assign {pid} = {wid}{c_idx}{idx};"
       else:
-        template = "assign {wid}{idx} = {pid};"
+        template = "assign {wid}{c_idx}{idx} = {pid};"
       if not n_dim:
         pid = f"{cpid}__{_pid}"
         wid = f"{cwid}__{_wid}"
@@ -180,8 +184,8 @@ class YosysStructuralTranslatorL4(
         ret = []
         for i in range( n_dim[0] ):
           _cpid = f"{cpid}__{i}"
-          _idx = f"[{i}]{idx}"
-          ret += _subcomp_conn_gen( d, _cpid, _pid, cwid, _wid, _idx, n_dim[1:] )
+          _c_idx = f"{c_idx}[{i}]"
+          ret += _subcomp_conn_gen( d, _cpid, _pid, cwid, _wid, idx, n_dim[1:], _c_idx )
         return ret
 
     wire_template = "logic {packed_type: <8} {id_}{array_dim_str};"
